@@ -39,6 +39,8 @@ pub static POOL_MAX_NOW: AtomicUsize = AtomicUsize::new(usize::MAX);
 pub static POOL_OVER: AtomicUsize = AtomicUsize::new(0);
 pub static POOL_PEAK: AtomicUsize = AtomicUsize::new(0);
 pub static SPAWN_EVENTS: AtomicUsize = AtomicUsize::new(0);
+pub static POOL_EXITS: AtomicUsize = AtomicUsize::new(0);
+pub fn on_exit_event() { POOL_EXITS.fetch_add(1, Ordering::SeqCst); }
 
 #[cfg(feature = "hooks")]
 pub fn live_pool() -> usize { desync::verif::live_pool_threads() }
@@ -72,7 +74,7 @@ pub fn install_panic_hook() {
 fn is_expected_panic(msg: &str, ctx: &RunCtx) -> bool {
     if msg.contains("vh-expected-panic") { return true; }
     // loud refusals of a panicked object are what C15 demands
-    ctx.prog.panics && (msg.contains("on a panicked queue") || msg.contains("PoisonError") || msg.contains("Poisoned"))
+    ctx.prog.panics && (msg.contains("on a panicked queue") || msg.contains("PoisonError") || msg.contains("Poisoned") || msg.contains("without result") || msg.contains("Finished sync request"))
 }
 
 fn panic_prop(msg: &str, profile_prop: &'static str) -> &'static str {
@@ -164,6 +166,7 @@ fn expected_complete(ctx: &RunCtx, only_free: bool) -> bool {
         let rec = &ctx.recs[i];
         if only_free && ctx.prog.held_objs.contains(&def.obj) { continue; }
         if !rec.accepted.load(ORD) { continue; }
+        if ctx.prog.panics && oracle::object_panicked(ctx, def.obj) { continue; }   // the queue of a panicked object is dead
         let must_end = match def.kind {
             Kind::Desync | Kind::FutDesync | Kind::After | Kind::PipeItem => true,
             Kind::Sync | Kind::TrySync => false,
@@ -179,7 +182,7 @@ fn expected_complete(ctx: &RunCtx, only_free: bool) -> bool {
 }
 
 pub fn helper_threads(ctx: &RunCtx) -> usize { 1 + !ctx.prog.pusher.is_empty() as usize }
-fn threads_finished(ctx: &RunCtx) -> bool { ctx.threads_done.load(Ordering::SeqCst) == ctx.prog.threads.len() + helper_threads(ctx) }
+fn threads_finished(ctx: &RunCtx, started: usize) -> bool { ctx.threads_done.load(Ordering::SeqCst) >= started }
 
 pub fn run_program(prog: Program, opts: &Opts, plan: noise::Plan) -> RunResult {
     let native = opts.native;
@@ -206,6 +209,7 @@ pub fn run_program(prog: Program, opts: &Opts, plan: noise::Plan) -> RunResult {
         return RunResult { outcome, violations: v, stats: oracle::RunStats::default(), ctx, diag, plan };
     }
     POOL_OVER.store(0, Ordering::SeqCst);
+    let exits0 = POOL_EXITS.load(Ordering::SeqCst);
     POOL_PEAK.store(live_pool(), Ordering::SeqCst);
     POOL_MAX_NOW.store(pool, Ordering::SeqCst);
     if cfg!(feature = "hooks") && live_pool() > pool {
@@ -242,15 +246,10 @@ pub fn run_program(prog: Program, opts: &Opts, plan: noise::Plan) -> RunResult {
     let nthreads = ctx.prog.threads.len();
     let barrier = Arc::new(Barrier::new(nthreads + helper_threads(&ctx)));
     let mut joins = vec![];
+    let mut started = nthreads + helper_threads(&ctx);
     for t in 0..nthreads {
-        let c = Arc::clone(&ctx); let b = Arc::clone(&barrier); let m = mortal_clones[t].take();
-        joins.push(thread::Builder::new().name(format!("vh-c{}", t)).spawn(move || {
-            b.wait();
-            let r = catch_unwind(AssertUnwindSafe(|| run_thread(&c, t, m)));
-            if let Err(e) = r { thread_panicked(&c, &format!("vh-c{}", t), e); }
-            c.threads_done.fetch_add(1, Ordering::SeqCst);
-            c.main.unpark();
-        }).expect("spawn"));
+        let m = mortal_clones[t].take();
+        joins.push(spawn_caller(&ctx, t, ctx.prog.threads[t].clone(), m, Some(Arc::clone(&barrier))));
     }
     {
         let c = Arc::clone(&ctx); let b = Arc::clone(&barrier);
@@ -277,17 +276,19 @@ pub fn run_program(prog: Program, opts: &Opts, plan: noise::Plan) -> RunResult {
 
     // 4. wait for completion; with holds (C10) first for everything that does not depend on a hold
     let mut outcome = Outcome::Completed;
+    let mut cur_max = pool;
     let mut stuck_snap = None;
     if ctx.prog.hold_phase {
-        let want_inside: u32 = ctx.prog.n_holds as u32;
+        let phase0_holds: Vec<usize> = phase0_holds(&ctx);
+        let want_inside: u32 = phase0_holds.len() as u32;
         let w = wait_until(native, watchdog, || {
-            ctx.holds.iter().map(|h| h.inside.load(Ordering::SeqCst).min(1)).sum::<u32>() >= want_inside && expected_complete(&ctx, true) && free_callers_done(&ctx)
+            phase0_holds.iter().map(|h| ctx.holds[*h].inside.load(Ordering::SeqCst).min(1)).sum::<u32>() >= want_inside && expected_complete(&ctx, true) && free_callers_done(&ctx)
         });
         match w {
             Wait::Done => {}
             Wait::Quiescent(s) => {
                 outcome = Outcome::Stuck;
-                let inside: u32 = ctx.holds.iter().map(|h| h.inside.load(Ordering::SeqCst).min(1)).sum();
+                let inside: u32 = phase0_holds.iter().map(|h| ctx.holds[*h].inside.load(Ordering::SeqCst).min(1)).sum();
                 diag.push(format!("quiescent while {} of {} holds are occupied and closed", inside, want_inside));
                 ctx.sink.report("C10", "independent_object_made_no_progress_while_others_blocked", format!("c10_stall:pool{}:held{}", ctx.prog.pool, ctx.prog.held_objs.len()),
                     format!("all threads quiet with {} bodies blocked (pool maximum {}), yet operations on other objects are incomplete: {}", inside, ctx.prog.pool, incomplete_list(&ctx, true)));
@@ -295,18 +296,97 @@ pub fn run_program(prog: Program, opts: &Opts, plan: noise::Plan) -> RunResult {
             }
             Wait::TimedOut => outcome = Outcome::Inconclusive("watchdog in hold phase".into()),
         }
-        for h in &ctx.holds { h.open(); }
+        if ctx.prog.hold_groups.is_empty() {
+            for h in &ctx.holds { h.open(); }
+        } else {
+            for (group, then) in ctx.prog.hold_groups.clone() {
+                for h in group { ctx.holds[h].open(); }
+                if let (Some(op), true) = (then, outcome == Outcome::Completed) {
+                    // proceed when that operation is over, or when nothing moves any more (both are fine)
+                    let _ = wait_until(native, watchdog, || { let r = &ctx.recs[op]; r.ret.load(ORD) != 0 || r.outcome.load(ORD) != 0 });
+                }
+            }
+            for h in &ctx.holds { h.open(); }
+        }
     }
     if outcome == Outcome::Completed {
-        match wait_until(native, watchdog, || threads_finished(&ctx) && expected_complete_or_pool0(&ctx)) {
+        match wait_until(native, watchdog, || threads_finished(&ctx, started) && expected_complete_or_pool0(&ctx)) {
             Wait::Done => {}
             Wait::Quiescent(s) => { outcome = Outcome::Stuck; stuck_snap = Some(s); }
             Wait::TimedOut => outcome = Outcome::Inconclusive("watchdog waiting for completion".into()),
         }
     }
 
+    // later phases of multi-phase scenarios (C15, C17)
+    let phases = ctx.prog.phases.clone();
+    let exits_at_start = exits0;
+    for ph in phases.iter() {
+        if outcome != Outcome::Completed { break; }
+        if ph.wait_pool_exit {
+            // "once the panic has finished unwinding": every pool thread that ran a panicking body has exited
+            let need = ctx.prog.ops.iter().enumerate().filter(|(i, _)| ctx.recs[*i].outcome.load(ORD) == 5 && ctx.recs[*i].runner.load(ORD) == 1).count();
+            if cfg!(feature = "hooks") {
+                match wait_until(native, watchdog, || POOL_EXITS.load(Ordering::SeqCst) >= exits_at_start + need) {
+                    Wait::Done => {}
+                    Wait::Quiescent(s) => { outcome = Outcome::Stuck; stuck_snap = Some(s);
+                        ctx.sink.report("C15", "panicked_pool_thread_never_exited", "pool_thread_survived_panic".into(), format!("{} panicking bodies ran on pool threads but only {} pool threads have exited", need, POOL_EXITS.load(Ordering::SeqCst) - exits_at_start)); }
+                    Wait::TimedOut => outcome = Outcome::Inconclusive("watchdog waiting for the panicked pool thread to exit".into()),
+                }
+            }
+            if outcome != Outcome::Completed { break; }
+            // the exit hook runs while the thread is still unwinding; the scheduler only sees it as finished a moment later
+            if native {
+                let _ = wait_until(native, watchdog, || quiesce::snapshot().map(|s| quiesce::pool_threads(&s) <= live_pool()).unwrap_or(true));
+            } else { for _ in 0..200 { thread::yield_now(); } }
+        }
+        for h in &ph.open_first { ctx.holds[*h].open(); }
+        if let Some(newmax) = ph.reconfig {
+            noise::set_plan(noise::Plan::Off, ctx.prog.run_seed);
+            // the maximum only changes between phases, at quiescence; raising is lazy, lowering is followed by despawn
+            let r = on_helper(native, watchdog, move || { let _ = newmax; configure_pool(newmax, PoolMode::Warm) });
+            match r {
+                Ok(()) => {}
+                Err(Wait::Quiescent(s)) => { outcome = Outcome::Stuck; stuck_snap = Some(s);
+                    ctx.sink.report("C17", "pool_reconfiguration_never_returned", "despawn_hang".into(), format!("lowering the maximum to {} and despawning did not return; all threads quiet", newmax)); break; }
+                Err(_) => { outcome = Outcome::Inconclusive("watchdog during pool reconfiguration".into()); break; }
+            }
+            POOL_MAX_NOW.store(newmax, Ordering::SeqCst);
+            cur_max = newmax;
+            if cfg!(feature = "hooks") && live_pool() > newmax {
+                ctx.report("C17", "pool_above_maximum_after_despawn", format!("despawn_left_threads:max{}", newmax), format!("{} live pool threads after lowering the maximum to {} and despawn_threads_if_overloaded returned", live_pool(), newmax));
+            }
+            noise::set_plan(plan, ctx.prog.run_seed ^ 0x51);
+        }
+        for (t, acts) in ph.threads.iter().enumerate() {
+            started += 1;
+            joins.push(spawn_caller(&ctx, 10 + t, acts.clone(), None, None));
+        }
+        if !ph.occupy.is_empty() {
+            let w = wait_until(native, watchdog, || ph.occupy.iter().all(|h| ctx.holds[*h].inside.load(Ordering::SeqCst) >= 1));
+            match w {
+                Wait::Done => {}
+                Wait::Quiescent(s) => {
+                    outcome = Outcome::Stuck; stuck_snap = Some(s);
+                    let inside = ph.occupy.iter().filter(|h| ctx.holds[**h].inside.load(Ordering::SeqCst) >= 1).count();
+                    let prop = if ctx.prog.panics { "C15" } else { "C10" };
+                    ctx.sink.report(prop, "pool_cannot_hold_its_maximum_of_blocked_bodies", format!("capacity:{}of{}:max{}", inside, ph.occupy.len(), cur_max),
+                        format!("phase '{}': {} bodies were scheduled on {} different objects with pool maximum {}, but only {} ever started; all threads quiet", ph.name, ph.occupy.len(), ph.occupy.len(), cur_max, inside));
+                }
+                Wait::TimedOut => outcome = Outcome::Inconclusive("watchdog in capacity probe".into()),
+            }
+            for h in &ph.occupy { ctx.holds[*h].open(); }
+        }
+        if outcome == Outcome::Completed {
+            match wait_until(native, watchdog, || threads_finished(&ctx, started) && (cur_max == 0 || expected_complete(&ctx, false))) {
+                Wait::Done => {}
+                Wait::Quiescent(s) => { outcome = Outcome::Stuck; stuck_snap = Some(s); }
+                Wait::TimedOut => outcome = Outcome::Inconclusive("watchdog waiting for a later phase".into()),
+            }
+        }
+    }
+
     // pool 0: nothing drains detached work unless a caller does; sweep with sync until everything accepted has run
-    if outcome == Outcome::Completed && ctx.prog.pool == 0 {
+    if outcome == Outcome::Completed && cur_max == 0 {
         for round in 0..4 {
             if round > 0 && expected_complete(&ctx, false) { break; }
             let c = Arc::clone(&ctx);
@@ -328,7 +408,7 @@ pub fn run_program(prog: Program, opts: &Opts, plan: noise::Plan) -> RunResult {
         let live: Vec<(usize, Arc<Obj>)> = objects.iter().enumerate().filter_map(|(i, o)| o.clone().map(|o| (i, o))).collect();
         let c = Arc::clone(&ctx);
         let mut last = String::new();
-        let w = wait_until(native, watchdog, || { let (ok, s) = settled(&c, &live); last = s; ok });
+        let w = wait_until(native, watchdog, || { let (ok, s) = settled(&c, &live, cur_max); last = s; ok });
         match w {
             Wait::Done => {}
             Wait::Quiescent(s) => {
@@ -405,7 +485,7 @@ pub fn run_program(prog: Program, opts: &Opts, plan: noise::Plan) -> RunResult {
     if cfg!(feature = "hooks") {
         let over = POOL_OVER.load(Ordering::SeqCst);
         if over > 0 {
-            ctx.sink.report("C17", "pool_exceeded_maximum", format!("pool_over:max{}", ctx.prog.pool), format!("{} live pool threads observed at a spawn event with maximum {}", over, ctx.prog.pool));
+            ctx.sink.report("C17", "pool_exceeded_maximum", "pool_over".into(), format!("{} live pool threads observed at a spawn event, above the maximum configured at that moment (final maximum {})", over, cur_max));
         }
         stats.pool_peak = POOL_PEAK.load(Ordering::SeqCst);
         if native && outcome == Outcome::Completed {
@@ -413,8 +493,8 @@ pub fn run_program(prog: Program, opts: &Opts, plan: noise::Plan) -> RunResult {
                 let mut os = quiesce::pool_threads(&s);
                 // a despawned thread can linger in /proc for a moment after it has been joined: only threads that stay count
                 let mut tries = 0;
-                while os > ctx.prog.pool && tries < 50 { thread::sleep(Duration::from_millis(1)); tries += 1; if let Some(s) = quiesce::snapshot() { os = quiesce::pool_threads(&s); } }
-                if os > ctx.prog.pool { ctx.sink.report("C17", "pool_exceeded_maximum", format!("pool_over_os:max{}", ctx.prog.pool), format!("{} pool threads alive (kernel view) with maximum {}", os, ctx.prog.pool)); }
+                while os > cur_max && tries < 50 { thread::sleep(Duration::from_millis(1)); tries += 1; if let Some(s) = quiesce::snapshot() { os = quiesce::pool_threads(&s); } }
+                if os > cur_max { ctx.sink.report("C17", "pool_exceeded_maximum", format!("pool_over_os:max{}", cur_max), format!("{} pool threads alive (kernel view) with maximum {}", os, cur_max)); }
                 stats.pool_os = os;
             }
         }
@@ -439,6 +519,18 @@ pub fn run_program(prog: Program, opts: &Opts, plan: noise::Plan) -> RunResult {
     RunResult { outcome, violations, ctx, diag, stats, plan }
 }
 
+fn spawn_caller(ctx: &Arc<RunCtx>, t: usize, acts: Vec<TAct>, mortal: Option<Arc<Obj>>, barrier: Option<Arc<Barrier>>) -> thread::JoinHandle<()> {
+    let c = Arc::clone(ctx);
+    thread::Builder::new().name(format!("vh-c{}", t)).spawn(move || {
+        if let Some(b) = barrier { b.wait(); }
+        let r = catch_unwind(AssertUnwindSafe(|| run_thread(&c, acts, mortal)));
+        if let Err(e) = r { thread_panicked(&c, &format!("vh-c{}", t), e); }
+        if t < 10 { c.done_mask.fetch_or(1 << t, Ordering::SeqCst); }
+        c.threads_done.fetch_add(1, Ordering::SeqCst);
+        c.main.unpark();
+    }).expect("spawn")
+}
+
 fn thread_panicked(_ctx: &RunCtx, _name: &str, _e: Box<dyn std::any::Any + Send>) {
     // recorded by the panic hook; classification happens at the end of the run
 }
@@ -454,11 +546,20 @@ fn state_words(s: &str) -> String {
     out.join("+")
 }
 
+/// Holds that are entered by operations issued in phase 0 (directly or nested)
+fn phase0_holds(ctx: &RunCtx) -> Vec<usize> {
+    let mut v = vec![];
+    for acts in ctx.prog.threads.iter() { for a in acts { if let TAct::Op(o) = a { for s in &ctx.prog.ops[*o].body { if let Step::Hold(h) = s { if !v.contains(h) { v.push(*h); } } } } } }
+    v
+}
+
 fn free_callers_done(ctx: &RunCtx) -> bool {
+    if !ctx.prog.hold_wait_invoked.iter().all(|o| ctx.recs[*o].inv.load(ORD) != 0) { return false; }
+    if let Some(ts) = &ctx.prog.hold_wait_threads { let m = ctx.done_mask.load(Ordering::SeqCst); return ts.iter().all(|t| m & (1 << *t) != 0); }
     // caller threads that only work on free objects must finish while the holds are closed; threads that touch held objects may be blocked
     let mut needed = 0; let mut total_free = 0;
     for acts in ctx.prog.threads.iter() {
-        let touches_held = acts.iter().any(|a| match a { TAct::Op(o) | TAct::Join(o) => ctx.prog.held_objs.contains(&ctx.prog.ops[*o].obj), _ => false });
+        let touches_held = acts.iter().any(|a| match a { TAct::Op(o) | TAct::Join(o) => ctx.prog.held_objs.contains(&ctx.prog.ops[*o].obj) || ctx.prog.ops[*o].body.iter().any(|s| matches!(s, Step::Hold(_))), TAct::WaitStart(_) => true, _ => false });
         if !touches_held { total_free += 1; }
     }
     needed += total_free;
@@ -481,7 +582,7 @@ fn incomplete_list(ctx: &RunCtx, only_free: bool) -> String {
 }
 
 /// Every live object's queue is idle and empty, and no pool thread is flagged busy
-fn settled(ctx: &RunCtx, live: &[(usize, Arc<Obj>)]) -> (bool, String) {
+fn settled(ctx: &RunCtx, live: &[(usize, Arc<Obj>)], cur_max: usize) -> (bool, String) {
     #[cfg(feature = "hooks")]
     {
         for (idx, d) in live {
@@ -490,7 +591,7 @@ fn settled(ctx: &RunCtx, live: &[(usize, Arc<Obj>)]) -> (bool, String) {
             let s = format!("{:?}", d.verif_queue());
             if !s.contains("State: Idle, Pending: 0") { return (false, format!("object {} queue is '{}'", idx, s)); }
         }
-        if ctx.prog.pool > 0 {
+        if cur_max > 0 && !ctx.prog.panics {
             let s = format!("{:?}", scheduler());
             let flags = s.split(' ').next().unwrap_or("");
             if flags.contains('B') { return (false, format!("scheduler busy flag still set: '{}'", s)); }
@@ -573,6 +674,10 @@ fn diagnose(ctx: &Arc<RunCtx>, objects: &[Option<Arc<Obj>>], snap: &[quiesce::Th
         if v == 0 { continue; }
         let subject = (v >> 16) as usize - 1; let phase = (v >> 8) & 0xff;
         if phase == PH_HOLD || phase == PH_FIREWAIT { continue; }
+        if phase == PH_ATTEMPT {
+            found.push(("C15", "scheduling_on_panicked_object_blocked".into(), format!("blocked_attempt:{}", pool_cond(ctx)), "a scheduling attempt on a panicked object never returned; all threads quiet".into()));
+            continue;
+        }
         if subject == NO_OP {
             let (prop, what) = match phase { PH_SWEEP => ("C04", "closing sync"), PH_PROBE => ("C09", "closing try_sync"), PH_DROPOBJ => ("C05", "drop of the last owner"), PH_DESPAWN => ("C17", "despawn"), _ => (pprop, "monitor helper") };
             found.push((prop, "blocked_forever".into(), format!("stuck:{}:{}", phase_name(phase), pool_cond(ctx)), format!("{} never returned", what)));
@@ -640,6 +745,10 @@ fn diagnose(ctx: &Arc<RunCtx>, objects: &[Option<Arc<Obj>>], snap: &[quiesce::Th
         found.push((pprop, "quiescent_but_incomplete".into(), format!("stuck:unknown:{}", pool_cond(ctx)), format!("all threads quiet but the run is incomplete: {}", incomplete_list(ctx, false))));
     }
     found.sort(); found.dedup();
+    if ctx.prog.panics {
+        // only the C15 scenarios inject panics: whatever got stuck afterwards is damage that was not contained
+        for f in found.iter_mut() { if f.0 != "C15" { f.2 = format!("{}:{}", f.0, f.2); f.0 = "C15"; } }
+    }
     for (prop, kind, sig, detail) in found { ctx.sink.report(prop, &kind, sig, detail); }
 }
 
